@@ -4,6 +4,7 @@ import (
 	"context"
 	"fmt"
 	"runtime"
+	"runtime/debug"
 	"sync"
 	"sync/atomic"
 
@@ -42,6 +43,9 @@ func runStore(r *vrun.Run) {
 // regRet[id] < begin[c] ⇒ that Register really returned before that Cancel began; firstInv[id] < end[c] ⇐ the
 // function was invoked before that Cancel returned. Oracle: regRet[id] < begin[c] ⇒ 0 < firstInv[id] < end[c].
 func runStoreRound(r *vrun.Run, g storeGen) {
+	if g.Index%16 == 0 {
+		r.Progress(g)
+	}
 	store := parallelisation.NewCancelFunctionsStore()
 	var clock atomic.Int64
 	nFn := g.Registrars * g.PerReg
@@ -58,6 +62,19 @@ func runStoreRound(r *vrun.Run, g storeGen) {
 				firstInv[id].CompareAndSwap(0, clock.Add(1))
 			}
 		}
+	}
+	// a store operation that panics (e.g. on a torn slice) must not take the monitor down: it is recorded
+	var panics atomic.Int64
+	var firstPanic atomic.Value
+	safely := func(op string, f func()) {
+		defer debug.SetPanicOnFault(debug.SetPanicOnFault(true)) // a torn slice header faults at a non-nil address
+		defer func() {
+			if p := recover(); p != nil {
+				panics.Add(1)
+				firstPanic.CompareAndSwap(nil, op+": "+fmt.Sprint(p))
+			}
+		}()
+		f()
 	}
 	var wg sync.WaitGroup
 	startGate := make(chan struct{})
@@ -79,7 +96,7 @@ func runStoreRound(r *vrun.Run, g storeGen) {
 				for x := 0; x < b; x++ {
 					fns[x] = mk(a*g.PerReg + j + x)
 				}
-				store.RegisterCancelFunction(fns...)
+				safely("RegisterCancelFunction", func() { store.RegisterCancelFunction(fns...) })
 				t := clock.Add(1)
 				for x := 0; x < b; x++ {
 					regBeg[a*g.PerReg+j+x] = t0
@@ -101,7 +118,7 @@ func runStoreRound(r *vrun.Run, g storeGen) {
 			for j := 0; j < g.PerCancel; j++ {
 				c := m*g.PerCancel + j
 				begin[c] = clock.Add(1)
-				store.Cancel()
+				safely("Cancel", store.Cancel)
 				end[c] = clock.Add(1)
 				for y := rng.next() % 3; y > 0; y-- {
 					runtime.Gosched()
@@ -116,7 +133,7 @@ func runStoreRound(r *vrun.Run, g storeGen) {
 			defer wg.Done()
 			<-startGate
 			for regsDone.Load() < int64(g.Registrars) {
-				_ = store.Len()
+				safely("Len", func() { _ = store.Len() })
 				lenCalls.Add(1)
 				runtime.Gosched()
 			}
@@ -127,7 +144,7 @@ func runStoreRound(r *vrun.Run, g storeGen) {
 	// a last Cancel that begins after every registration returned
 	last := nC - 1
 	begin[last] = clock.Add(1)
-	store.Cancel()
+	safely("Cancel", store.Cancel)
 	end[last] = clock.Add(1)
 
 	var obligations, overlaps, missed int64
@@ -156,6 +173,12 @@ func runStoreRound(r *vrun.Run, g storeGen) {
 	r.Obs("store_cancel_calls", int64(nC))
 	r.Obs("store_registered_functions", int64(nFn))
 	r.Obs("store_len_calls", lenCalls.Load())
+	if panics.Load() > 0 {
+		fp, _ := firstPanic.Load().(string)
+		r.Violation(vrun.Sig{"ep": "CancelFunctionStore", "effect": "panic-in-store-operation"},
+			fmt.Sprintf("%d store operations panicked under concurrent Register/Cancel/Len; first: %s", panics.Load(), trunc(fp, 160)),
+			map[string]any{"store_round": g, "first_panic": fp, "deterministic": false})
+	}
 	if missed > 0 {
 		firstMiss["store_round"] = g
 		firstMiss["missed_obligations"] = missed
